@@ -39,3 +39,86 @@ fn lemma_tc_is_bits_33_40() {
         "lemma: type-code reader differs from bits 33-37 / 38-40"
     );
 }
+
+// @harness props=C01,C05,C08,C11,C12,C19 tier=quick cap=300
+// cpr(m) == Some((bit 54, bits 55..71, bits 72..88)) for every 112-bit frame
+#[cfg_attr(kani, kani::proof)]
+#[cfg_attr(kani, kani::unwind(30))]
+#[cfg_attr(verif_replay, test)]
+fn lemma_cpr_is_bits_54_88() {
+    let m = frame28();
+    vcover!(bit(&m, 54) == 1 && bits(&m, 55, 71) == 0x1FFFF, "odd frame, maximal latitude field");
+    vassert!(
+        cpr(&m) == Some((bit(&m, 54), bits(&m, 55, 71) as u32, bits(&m, 72, 88) as u32)),
+        "lemma: CPR field reader differs from F = bit 54, YZ = bits 55-71, XZ = bits 72-88"
+    );
+}
+
+/// nibbles of a hex string (test vectors)
+fn hex28(s: &str) -> [u32; 28] {
+    let mut m = [0u32; 28];
+    let b = s.as_bytes();
+    let mut i = 0;
+    while i < 28 {
+        m[i] = (b[i] as char).to_digit(16).unwrap();
+        i += 1;
+    }
+    m
+}
+fn hex14(s: &str) -> [u32; 14] {
+    let mut m = [0u32; 14];
+    let b = s.as_bytes();
+    let mut i = 0;
+    while i < 14 {
+        m[i] = (b[i] as char).to_digit(16).unwrap();
+        i += 1;
+    }
+    m
+}
+
+// @harness props=C03,C04,C05,C06,C07,C09,C10 tier=quick cap=600
+// ORACLE SELF-TEST: the reference oracles of /verif reproduce published / recorded vectors
+// (mode-s.org examples and the repository's own pinned test vectors). Concrete inputs only.
+#[cfg_attr(kani, kani::proof)]
+#[cfg_attr(kani, kani::unwind(120))]
+#[cfg_attr(verif_replay, test)]
+fn oracle_selftest_vectors() {
+    use crate::verif::spec::*;
+    // CRC / address (repo test_icao, mode-s.org)
+    vassert!(rem112(&hex28("8D40621D58C382D690C8AC2863A7")) == 0, "oracle: CRC of a valid DF17 is not 0");
+    vassert!(rem112(&hex28("8D406B902015A678D4D220AA4BDA")) == 0, "oracle: CRC of a valid DF17 is not 0");
+    vassert!(address112(&hex28("A0001838300000000000007ADA59"), 20) == 7453696, "oracle: DF20 address");
+    vassert!(address112(&hex28("A800120110010080F600001AFEDD"), 21) == 4921598, "oracle: DF21 address");
+    vassert!(address56(&hex14("28001A1B1F0706"), 5) == 5023854, "oracle: DF5 address");
+    vassert!(address112(&hex28("8D4CA86E58B15398DA1B2834CF37"), 17) == 5023854, "oracle: DF17 AA");
+    vassert!(rem56(&hex14("5D484FDEA248F5")) == 0, "oracle: CRC of a valid DF11 is not 0");
+    // altitude (mode-s.org: 8D40621D58C382D690C8AC2863A7 -> 38000 ft; DF20 A0001838.. -> AC13)
+    vassert!(ac12(&hex28("8D40621D58C382D690C8AC2863A7")) == Alt::Ft(38000), "oracle: AC12 38000 ft");
+    vassert!(ac13(&hex28("A8281200200464B3CF7820CD194C")) == Alt::Ft(14300), "oracle: AC13 14300 ft (repo test_alt)");
+    vassert!(ac13(&hex28("A020100A10020A80F000004F24AF")) == Alt::Ft(200), "oracle: Gillham C1 B2 B4 = 200 ft");
+    vassert!(ac13(&hex14("20000000000000")) == Alt::NoAlt, "oracle: all-zero AC13");
+    // squawk (repo test_squawk)
+    vassert!(id13_squawk(&hex28("A8000F8FC6500030A40000318121")) == 7666, "oracle: squawk 7666");
+    vassert!(id13_squawk(&hex28("A8000EABEA2A4F34E02400EE982C")) == 7724, "oracle: squawk 7724");
+    vassert!(id13_squawk(&hex14("2800189A8E0F41")) == 5611, "oracle: squawk 5611");
+    vassert!(id13_squawk(&hex14("2800189F714598")) == 5617, "oracle: squawk 5617");
+    // callsign (repo test_ais)
+    let (cs, n) = callsign(&hex28("8D406F7C250815F2CB4560C85DCA"));
+    vassert!(n == 7 && cs[0] == b'B' && cs[1] == b'A' && cs[2] == b'W' && cs[3] == b'2' && cs[4] == b'2' && cs[5] == b'4' && cs[6] == b'U', "oracle: callsign BAW224U");
+    let (cs, n) = callsign(&hex28("8DAAAA9225041331DF3820CAC7A4"));
+    vassert!(n == 6 && cs[0] == b'A' && cs[1] == b'A' && cs[2] == b'L' && cs[3] == b'1' && cs[4] == b'7' && cs[5] == b'3', "oracle: callsign AAL173");
+    // velocity (mode-s.org 8D485020994409940838175B284F: Vew -9, Vns -160, vrate -832)
+    let v = hex28("8D485020994409940838175B284F");
+    vassert!(tc19_vew(&v) == Some(-8) && tc19_vns(&v) == Some(-159) && tc19_vrate(&v) == Some(-832), "oracle: TC19 components");
+    // BDS 4,0 (repo test vectors: MCP 23008 ft, FMS 37008 ft)
+    let r = bds40(&hex28("A80004BAACF6427180000078379E"));
+    vassert!(r.mcp_alt == 23008 && r.fms_alt == 37008 && r.status_ok, "oracle: BDS 4,0 selected altitudes");
+    // BDS 5,0 (mode-s.org A000139381951536E024D4CCF6B5: roll 2.1, track 114.258, gs 438, rate 0.125, tas 424)
+    let r = bds50(&hex28("A000139381951536E024D4CCF6B5"));
+    vassert!(r.status_ok && r.gs == 438 && r.tas == 424 && r.roll_num / 256 == 2 && r.track_num / 512 == 114 && r.rate_num == 4, "oracle: BDS 5,0 example");
+    // BDS 6,0 (mode-s.org A00004128F39F91A7E27C46ADC21: hdg 42.715, IAS 252, Mach 0.42, baro -1920, ivv -1920)
+    let r = bds60(&hex28("A00004128F39F91A7E27C46ADC21"));
+    vassert!(r.status_ok && r.ias == 252 && r.mach_field == 105 && r.baro_rate == -1920 && r.ivv == -1920 && r.hdg_num / 512 == 42, "oracle: BDS 6,0 example");
+    vcover!(true, "reached");
+    vcover!(r.status_ok, "reached 2");
+}
